@@ -426,6 +426,16 @@ pub fn run_schedule(w: &World, paths: &[Path], prefix: &[usize]) -> RunOut {
                         break;
                     }
                 }
+                // a released write-connection request that has not even been queued after a second is
+                // waiting for something before the queue (on this tree nothing is; a change that puts
+                // a wait there must not turn into a machinery error)
+                if settle_start.elapsed() > Duration::from_secs(1) {
+                    for i in 0..n {
+                        if st[i] == St::Running && pending_q[i].is_some() {
+                            st[i] = St::Waiting("write-conn (request not queued yet)".into());
+                        }
+                    }
+                }
                 if settle_start.elapsed() > Duration::from_secs(20) {
                     machinery_error(&format!("C20-B: tasks did not settle: {st:?} paths {paths:?} acts {:?} log {:?}", out.acts, LOG.lock().unwrap()));
                 }
